@@ -96,7 +96,16 @@ def build_pairs(structure, pairs, mode):
         if isinstance(r, (list, tuple)):
             return Residue(None, ResidueAuth("Zq", 9000 + int(r[1]), None, "G"))
         n = nts[r]
+        if mode == "mixed":
+            # a merged list of several sources: every occurrence of a residue spelled its own way
+            # (label + auth, auth only, label only) — deterministic per (list position) so that replays agree
+            k = (res.count * 7 + (r if isinstance(r, int) else 0) * 3) % 5
+            res.count += 1
+            if k in (0, 1) or n.label is None or n.auth is None:
+                return Residue(n.label, n.auth)
+            return Residue(None, n.auth) if k in (2, 3) else Residue(n.label, None)
         return Residue(n.label if mode == "full" else None, n.auth)
+    res.count = 0
     return [BasePair(res(a), res(b), lws[lw], None if sa is None else sas[sa]) for a, b, lw, sa in pairs]
 
 
@@ -112,8 +121,12 @@ def synthetic(rng, max_chains=3, max_len=6):
     names = rng.sample(["A", "B", "C", "AA", "a", "B-2"], nchains)
     if rng.random() < 0.3:
         names.sort(reverse=True)
+    if nchains >= 2 and rng.random() < 0.2:
+        # a chain identifier revisited after another chain (A.., B.., A..: trailing modified residues, a nicked strand)
+        names = names + [names[0]]
+    last_number = {}
     for chain in names:
-        number = rng.choice([1, 1, 5, -3, 100])
+        number = rng.choice([1, 1, 5, -3, 100]) if chain not in last_number else last_number[chain] + rng.choice([1, 2, 10])
         prev_o3 = None
         for k in range(rng.randint(1, max_len)):
             if k > 0:
@@ -124,6 +137,7 @@ def synthetic(rng, max_chains=3, max_len=6):
             if icode is None and rng.random() < 0.05:
                 icode = rng.choice("AB")
             used.add((chain, number, icode))
+            last_number[chain] = number
             # P position: next to the previous O3' at a chosen distance, or far away
             if prev_o3 is not None:
                 d = rng.choice([1.6, 1.6, 1.6, 2.39, 2.41, 2.399, 2.401, 3.5, 7.0])
